@@ -94,6 +94,27 @@ def session(job):
                 s.drop(0)
             return code, adv
 
+        def build_ack(skip_limits):
+            """ACK frame for what X sent, except (usually) the packets that carried its limit updates: X must treat those
+            as lost and advertise the limits again, while it keeps honouring them."""
+            mine = [e for e in s.log if e["k"] == "pkt" and e["ep"] == X and e.get("ok") and e.get("space") == "a"]
+            pns = sorted({e["pn"] for e in mine
+                          if not (skip_limits and any(f["t"].startswith("max_") for f in e.get("frames", [])))})
+            if not pns:
+                return None
+            runs = []
+            for pn in pns:
+                if runs and pn == runs[-1][1] + 1:
+                    runs[-1][1] = pn
+                else:
+                    runs.append([pn, pn])
+            runs.reverse()
+            ranges, prev_lo = [], runs[0][0]
+            for lo, hi_ in runs[1:]:
+                ranges.append((prev_lo - hi_ - 2, hi_ - lo))
+                prev_lo = lo
+            return H.f_ack(runs[0][1], 0, runs[0][1] - runs[0][0], ranges[:20])
+
         harvest(0)
         peer_bidi = [1, 5, 9] if X == "c" else [0, 4, 8]
         peer_uni = [3, 7, 11] if X == "c" else [2, 6, 10]
@@ -107,8 +128,13 @@ def session(job):
             if plan is not None:
                 if step >= len(plan):
                     break
-                if plan[step][0] == "fire":
-                    s.fire(X)
+                if plan[step][0] in ("fire", "ping", "tick"):
+                    if plan[step][0] == "fire":
+                        s.fire(X)
+                    elif plan[step][0] == "ping":
+                        s.api(X, "ping", 2000 + step)
+                    else:
+                        s.tick(plan[step][1])
                     code, adv = harvest(n0)
                     lines += adv
                     continue
@@ -138,6 +164,19 @@ def session(job):
                     end = rnd.choice([0, 1, 2, 5, 40])
                 else:
                     end = TOP
+                # the same packet may first acknowledge what X sent except its limit updates, some time after they were
+                # sent: X declares them lost while it processes this very packet and must still honour them for the frame
+                # that follows
+                pre = b""
+                if (rnd.random() < 0.2 and plan is None) or (plan is not None and plan[step][0] == "ackframe"):
+                    if plan is None:
+                        s.tick(rnd.choice([1000, 300000]))
+                        if rnd.random() < 0.6:     # a new stream just inside the stream-count limit
+                            uni = rnd.random() < 0.5
+                            sid = max(0, lim["uni" if uni else "bidi"] - 1) * 4 + (2 if uni else 0) + (1 if X == "c" else 0)
+                            cur = max(sl, slim.get(sid, 0))
+                            end = min(end, cur)
+                    pre = build_ack(True) or b""
                 if plan is not None:
                     _, sid, delta, ln, fin, reset = plan[step]
                     cur = max(sl, slim.get(sid, 0))
@@ -156,7 +195,7 @@ def session(job):
                 # a stream whose both halves finished is forgotten by the endpoint; RFC 9000 4.5 does not oblige it to
                 # keep the final size of closed streams, so frames on such a stream are not judged
                 live = sid not in conn._streams_finished and not (sid in conn._streams and conn._streams[sid].receiver.is_finished)
-                H.inject(s, src, "1rtt", payload, "flow")
+                H.inject(s, src, "1rtt", pre + payload, "flow")
                 inj = next(e for e in reversed(s.log) if e["k"] == "inject")
                 code, adv = harvest(n0)
                 if inj["accepted"]:
@@ -169,26 +208,9 @@ def session(job):
             else:
                 kind = rnd.choice(["crypto", "challenge", "ncid", "ack", "ack"])
                 if kind == "ack":
-                    # acknowledge what X sent, except (usually) the packets that carried its limit updates: X must
-                    # treat those as lost and advertise the limits again, while it keeps honouring them
-                    mine = [e for e in s.log if e["k"] == "pkt" and e["ep"] == X and e.get("ok") and e.get("space") == "a"]
-                    skip_limits = rnd.random() < 0.8
-                    pns = sorted({e["pn"] for e in mine
-                                  if not (skip_limits and any(f["t"].startswith("max_") for f in e.get("frames", [])))})
-                    if not pns:
+                    payload = build_ack(rnd.random() < 0.8)
+                    if payload is None:
                         continue
-                    runs = []
-                    for pn in pns:
-                        if runs and pn == runs[-1][1] + 1:
-                            runs[-1][1] = pn
-                        else:
-                            runs.append([pn, pn])
-                    runs.reverse()
-                    ranges, prev_lo = [], runs[0][0]
-                    for lo, hi_ in runs[1:]:
-                        ranges.append((prev_lo - hi_ - 2, hi_ - lo))
-                        prev_lo = lo
-                    payload = H.f_ack(runs[0][1], 0, runs[0][1] - runs[0][0], ranges[:20])
                 elif kind == "crypto":
                     # never-completed handshake data: offset 0 is never sent
                     off = rnd.choice([1, 1000, 100000, 400000, 524288 - 1200, 524288 - 100, 524289, 1 << 20])
@@ -287,6 +309,13 @@ def run(check):
                      "target": tgt, "seed": 77, "loaded": True, "steps": 40,
                      "plan": [["frame", peer_uni0, -400, 600, False, False], ["frame", peer_uni0, 1, 1, False, False],
                               ["frame", peer_uni0, 300, 1, False, False], ["fire"], ["frame", peer_uni0, 1, 1, False, False]]})
+    # corpus: a MAX_STREAMS frame is declared lost by the very packet that opens a stream it allows
+    for tgt in "cs":
+        b1, b3 = (5, 13) if tgt == "c" else (4, 12)
+        jobs.append({"cfg": {"max_stream_data": 1000, "max_data": 100000, "s_max_stream_data": 1000, "s_max_data": 100000, "max_streams": 2},
+                     "target": tgt, "seed": 78, "loaded": False, "steps": 10,
+                     "plan": [["frame", b1, -990, 10, False, False], ["ping"], ["tick", 1000000], ["ping"],
+                              ["ackframe", b3, -990, 10, False, False], ["frame", b3, -900, 10, False, False]]})
     results = runner.run_many(session, jobs)
     judge(check, jobs, results, "TraceFlowRecv_V")
     for job, res in zip(jobs, results):
